@@ -1,94 +1,235 @@
 package main
 
 import (
+	"encoding/json"
 	"fmt"
 	"go/ast"
+	"go/importer"
+	"go/parser"
 	"go/token"
+	"go/types"
+	"io"
+	"os"
+	"os/exec"
+	"path/filepath"
 	"sort"
 	"strings"
 )
 
-// ---------- G13: in-place writes through info / content entries / file infos ----------
+// ---------- G13: in-place writes into nfpm's own data structures, by type ----------
+//
+// Every assignment, increment or delete whose target is reached THROUGH A POINTER (or a map) to a struct type
+// declared in the nfpm module – *nfpm.Info, *files.Content, *files.ContentFileInfo, … – is recorded as
+// (package, function, "Type.field.path").  The table is computed from go/types information, so it does not depend on
+// how variables are named (a renamed local neither hides a write nor changes the table); moving a write into another
+// function, or writing a field that was not written before, changes it.
 
-func rootIdent(e ast.Expr) string {
+const nfpmModule = "github.com/goreleaser/nfpm/v2"
+
+type listedPkg struct {
+	ImportPath string
+	Export     string
+	Dir        string
+	GoFiles    []string
+}
+
+// typeCheckRepo type-checks the given packages of /repo (import paths relative to the module root, "" = root)
+// against the export data `go list -export -deps` leaves in the build cache.
+func typeCheckRepo(rel []string) (*token.FileSet, map[string]*types.Info, map[string][]*ast.File, error) {
+	cmd := exec.Command("go", "list", "-export", "-deps", "-json=ImportPath,Export,Dir,GoFiles", "./...")
+	cmd.Dir = *repo
+	cmd.Env = append(os.Environ(), "GOFLAGS=-mod=mod", "GOPROXY=off", "GOSUMDB=off", "GOTOOLCHAIN=local", "CGO_ENABLED=0")
+	out, err := cmd.Output()
+	if err != nil {
+		msg := ""
+		if ee, ok := err.(*exec.ExitError); ok {
+			msg = string(ee.Stderr)
+		}
+		return nil, nil, nil, fmt.Errorf("go list -export: %v %s", err, msg)
+	}
+	pkgs := map[string]listedPkg{}
+	dec := json.NewDecoder(strings.NewReader(string(out)))
+	for dec.More() {
+		var p listedPkg
+		if err := dec.Decode(&p); err != nil {
+			return nil, nil, nil, err
+		}
+		pkgs[p.ImportPath] = p
+	}
+	fset := token.NewFileSet()
+	imp := importer.ForCompiler(fset, "gc", func(path string) (io.ReadCloser, error) {
+		p, ok := pkgs[path]
+		if !ok || p.Export == "" {
+			return nil, fmt.Errorf("no export data for %s", path)
+		}
+		return os.Open(p.Export)
+	})
+	infos := map[string]*types.Info{}
+	asts := map[string][]*ast.File{}
+	for _, r := range rel {
+		ip := nfpmModule
+		if r != "" {
+			ip += "/" + r
+		}
+		p, ok := pkgs[ip]
+		if !ok {
+			return nil, nil, nil, fmt.Errorf("package %s not listed", ip)
+		}
+		var fs []*ast.File
+		for _, gf := range p.GoFiles {
+			f, err := parser.ParseFile(fset, filepath.Join(p.Dir, gf), nil, 0)
+			if err != nil {
+				return nil, nil, nil, err
+			}
+			fs = append(fs, f)
+		}
+		info := &types.Info{Types: map[ast.Expr]types.TypeAndValue{}, Uses: map[*ast.Ident]types.Object{}, Defs: map[*ast.Ident]types.Object{}, Selections: map[*ast.SelectorExpr]*types.Selection{}}
+		conf := types.Config{Importer: imp, Error: func(error) {}}
+		if _, err := conf.Check(ip, fset, fs, info); err != nil {
+			return nil, nil, nil, fmt.Errorf("type-check %s: %v", ip, err)
+		}
+		infos[r] = info
+		asts[r] = fs
+	}
+	return fset, infos, asts, nil
+}
+
+// ownStruct returns the short name ("nfpm.Info", "files.Content") of a named struct type of the nfpm module.
+func ownStruct(t types.Type) (string, bool) {
+	n, ok := t.(*types.Named)
+	if !ok {
+		if a, isAlias := t.(*types.Alias); isAlias {
+			return ownStruct(types.Unalias(a))
+		}
+		return "", false
+	}
+	if n.Obj().Pkg() == nil || !strings.HasPrefix(n.Obj().Pkg().Path(), nfpmModule) {
+		return "", false
+	}
+	if _, ok := n.Underlying().(*types.Struct); !ok {
+		return "", false
+	}
+	return n.Obj().Pkg().Name() + "." + n.Obj().Name(), true
+}
+
+// writeTarget describes the memory an lvalue denotes: the last pointer (or map) hop on the way to it and the
+// field path from there.  ok = false when the lvalue is a plain variable or lives in a local struct value.
+func writeTarget(info *types.Info, e ast.Expr) (string, bool) {
+	path := ""
 	for {
 		switch x := e.(type) {
-		case *ast.SelectorExpr:
-			e = x.X
-		case *ast.IndexExpr:
-			e = x.X
-		case *ast.StarExpr:
-			e = x.X
 		case *ast.ParenExpr:
 			e = x.X
-		case *ast.Ident:
-			return x.Name
+		case *ast.SelectorExpr:
+			tv, ok := info.Types[x.X]
+			if !ok {
+				return "", false
+			}
+			path = "." + x.Sel.Name + path
+			if p, isPtr := tv.Type.Underlying().(*types.Pointer); isPtr {
+				if name, own := ownStruct(p.Elem()); own {
+					return name + path, true
+				}
+				return "", false // through a pointer to a foreign type (tar.Header, …): not nfpm's data
+			}
+			e = x.X
+		case *ast.IndexExpr:
+			tv, ok := info.Types[x.X]
+			if !ok {
+				return "", false
+			}
+			switch tv.Type.Underlying().(type) {
+			case *types.Map, *types.Slice:
+				// the element lives behind the map / slice header: continue to find whose field that is
+				path = "[]" + path
+				e = x.X
+			default:
+				path = "[]" + path
+				e = x.X
+			}
+		case *ast.StarExpr:
+			tv, ok := info.Types[x.X]
+			if !ok {
+				return "", false
+			}
+			if p, isPtr := tv.Type.Underlying().(*types.Pointer); isPtr {
+				if name, own := ownStruct(p.Elem()); own {
+					return name + path, true
+				}
+			}
+			return "", false
 		default:
-			return ""
+			return "", false
 		}
 	}
 }
 
 func genInPlace() (string, error) {
-	type row struct{ file, fn, lhs string }
+	type row struct{ pkg, fn, target string }
 	var rows []row
-	watched := map[string]bool{"info": true, "content": true, "file": true, "c": true, "cc": true, "i": true, "f": true, "tree": true, "origFile": true, "newFile": true}
-	for _, f := range []string{"nfpm.go", "files/files.go", "deb/deb.go", "rpm/rpm.go", "apk/apk.go", "arch/arch.go", "ipk/ipk.go", "ipk/tar.go"} {
-		s, err := parse(f)
-		if err != nil {
-			return "", err
+	rels := []string{"", "files", "deb", "rpm", "apk", "arch", "ipk"}
+	_, infos, asts, err := typeCheckRepo(rels)
+	if err != nil {
+		return "", err
+	}
+	for _, r := range rels {
+		info := infos[r]
+		pkgName := r
+		if r == "" {
+			pkgName = "nfpm"
 		}
-		for _, d := range s.f.Decls {
-			fd, ok := d.(*ast.FuncDecl)
-			if !ok || fd.Body == nil {
-				continue
-			}
-			if strings.HasPrefix(fd.Name.Name, "expandEnvVars") || fd.Name.Name == "Swap" {
-				continue // parse-time construction of the Config / sort.Interface plumbing
-			}
-			// parameters / receivers of pointer or struct type named like the watched roots
-			ast.Inspect(fd.Body, func(n ast.Node) bool {
-				switch x := n.(type) {
-				case *ast.AssignStmt:
-					if x.Tok == token.DEFINE {
-						return true
-					}
-					for _, l := range x.Lhs {
-						if _, plain := l.(*ast.Ident); plain {
-							continue
+		for _, f := range asts[r] {
+			for _, d := range f.Decls {
+				fd, ok := d.(*ast.FuncDecl)
+				if !ok || fd.Body == nil {
+					continue
+				}
+				if strings.HasPrefix(fd.Name.Name, "expandEnvVars") || strings.HasPrefix(fd.Name.Name, "expand") && pkgName == "nfpm" || fd.Name.Name == "Swap" {
+					continue // parse-time construction of the Config / sort.Interface plumbing
+				}
+				add := func(e ast.Expr, wrap string) {
+					if t, ok := writeTarget(info, e); ok {
+						if wrap != "" {
+							t = wrap + "(" + t + ")"
 						}
-						if r := rootIdent(l); watched[r] {
-							rows = append(rows, row{f, fd.Name.Name, exprText2(l)})
-						}
-					}
-				case *ast.CallExpr:
-					if id, ok := x.Fun.(*ast.Ident); ok && id.Name == "delete" && len(x.Args) > 0 {
-						if r := rootIdent(x.Args[0]); watched[r] {
-							rows = append(rows, row{f, fd.Name.Name, "delete(" + exprText2(x.Args[0]) + ")"})
-						}
-					}
-				case *ast.IncDecStmt:
-					if r := rootIdent(x.X); watched[r] {
-						if _, plain := x.X.(*ast.Ident); !plain {
-							rows = append(rows, row{f, fd.Name.Name, exprText2(x.X)})
-						}
+						rows = append(rows, row{pkgName, fd.Name.Name, t})
 					}
 				}
-				return true
-			})
+				ast.Inspect(fd.Body, func(n ast.Node) bool {
+					switch x := n.(type) {
+					case *ast.AssignStmt:
+						if x.Tok == token.DEFINE {
+							return true
+						}
+						for _, l := range x.Lhs {
+							if _, plain := l.(*ast.Ident); !plain {
+								add(l, "")
+							}
+						}
+					case *ast.CallExpr:
+						if id, ok := x.Fun.(*ast.Ident); ok && id.Name == "delete" && len(x.Args) > 0 {
+							add(&ast.IndexExpr{X: x.Args[0]}, "delete")
+						}
+					case *ast.IncDecStmt:
+						if _, plain := x.X.(*ast.Ident); !plain {
+							add(x.X, "")
+						}
+					}
+					return true
+				})
+			}
 		}
 	}
 	sort.Slice(rows, func(i, j int) bool {
 		a, b := rows[i], rows[j]
-		if a.file != b.file {
-			return a.file < b.file
+		if a.pkg != b.pkg {
+			return a.pkg < b.pkg
 		}
 		if a.fn != b.fn {
 			return a.fn < b.fn
 		}
-		return a.lhs < b.lhs
+		return a.target < b.target
 	})
-	// dedupe
 	var out []row
 	for i, r := range rows {
 		if i == 0 || rows[i-1] != r {
@@ -97,31 +238,15 @@ func genInPlace() (string, error) {
 	}
 	var b strings.Builder
 	b.WriteString("import NfpmModel.Bytes\nnamespace Nfpm.Generated\nopen Nfpm\n")
-	b.WriteString("/-- every assignment (or delete) through info / a content entry / a file info: (file, function, target) -/\n")
+	b.WriteString("/-- every assignment (or delete) that reaches its target through a pointer or map to one of nfpm's own struct types: (package, function, Type.field.path) -/\n")
 	b.WriteString("def inPlaceWrites : List (Bytes × Bytes × Bytes) := [\n")
 	for i, r := range out {
 		sep := ","
 		if i == len(out)-1 {
 			sep = ""
 		}
-		fmt.Fprintf(&b, "  (%s, %s, %s)%s\n", leanStr(r.file), leanStr(r.fn), leanStr(r.lhs), sep)
+		fmt.Fprintf(&b, "  (%s, %s, %s)%s\n", leanStr(r.pkg), leanStr(r.fn), leanStr(r.target), sep)
 	}
 	b.WriteString("]\nend Nfpm.Generated\n")
 	return b.String(), nil
-}
-
-func exprText2(e ast.Expr) string {
-	switch x := e.(type) {
-	case *ast.SelectorExpr:
-		return exprText2(x.X) + "." + x.Sel.Name
-	case *ast.Ident:
-		return x.Name
-	case *ast.IndexExpr:
-		return exprText2(x.X) + "[]"
-	case *ast.StarExpr:
-		return "*" + exprText2(x.X)
-	case *ast.ParenExpr:
-		return exprText2(x.X)
-	}
-	return "?"
 }
